@@ -60,7 +60,7 @@ Definition ores_eqb (a b : option (result pyv)) : bool :=
    observed = what every call returned, and the _kwargs/flags of every initializer object at the end *)
 Definition chk_calls (i0 : initializer pyv) (ops : list (nat * list pyv * kwargs pyv))
                      (obs_results : list (option (result pyv))) (obs_heap : list (initializer pyv)) : bool :=
-  let '(h, rs) := hrun pyv pyv_none [i0] ops in
+  let '(h, rs) := hrun pyv_none [i0] ops in
   list_eqb ores_eqb rs obs_results && list_eqb init_eqb h obs_heap.
 
 (* ---------------- Part 2: rescaling ---------------- *)
